@@ -532,6 +532,46 @@ def fork_case(payload: Tuple[str, int]) -> Dict[str, Any]:
     return rep.part()
 
 
+def dead_holder_case(payload: Tuple[str, int]) -> Dict[str, Any]:
+    """S3 lock whose holder died (no renewal, no release): for every age of the lock object in a list that brackets the
+    lease and whole days, a contender must refuse to take over before the lease lapsed and must take over after it,
+    within its timeout - for both lock providers (conditional writes / polling)."""
+    from datashard.lock_provider import S3LockProvider, S3PollingLockProvider
+
+    tier, seed = payload
+    install_threading_seams()
+    rep = Report("C19", tier, seed, "model_checking")
+    ages = [1.0, LEASE - 1.0, LEASE + 1.0, 3600.0, 86400.0 - 30.0, 86400.0 + 5.0, 86400.0 + 59.0, 2 * 86400.0 + 20.0,
+            7 * 86400.0 + 1.0]
+    for cls in (S3LockProvider, S3PollingLockProvider):
+        for age in ages:
+            ENV.reset(seed)
+            fake = FakeS3("bkt")
+            a = cls(fake, "bkt", S3LockWorld.KEY, timeout=2.0)
+            if not a.acquire():
+                raise HarnessError("first acquire failed")
+            # the holder's process is gone: its heartbeat never runs (threads are not started outside an exploration)
+            ENV.advance(age)
+            b = cls(fake, "bkt", S3LockWorld.KEY, timeout=5.0)
+            t0 = ENV.clock
+            try:
+                got = bool(b.acquire())
+            except TimeoutError:
+                got = False
+            waited = ENV.clock - t0
+            rep.add("dead_holder_cases")
+            rep.nontrivial(("dead-holder", cls.__name__, age))
+            lapsed = age > LEASE
+            if not lapsed and got and age + waited > LEASE:
+                continue  # the lease lapsed while the contender was waiting: a legitimate takeover
+            if got != lapsed or waited > 5.0 + 1.0:
+                rep.violation({"lock": "s3", "scenario": "dead_holder", "problem":
+                               "lock of a dead holder not taken over after its lease lapsed" if lapsed else
+                               "lock taken over before its lease lapsed"},
+                              {"provider": cls.__name__, "age_of_lock_object_s": age, "acquired": got, "waited_s": round(waited, 3)})
+    return rep.part()
+
+
 # ---------------------------------------------------------------------------
 def run_config(cfg: Dict[str, Any]) -> Dict[str, Any]:
     rep = Report("C19", cfg["tier"], cfg["seed"], "model_checking")
@@ -601,6 +641,8 @@ def configs(tier: str, seed: int) -> List[Dict[str, Any]]:
 def run(tier: str, seed: int) -> Report:
     rep = Report("C19", tier, seed, "model_checking")
     for part in pmap("checks.c19", "run_config", configs(tier, seed)):
+        rep.merge(part)
+    for part in pmap("checks.c19", "dead_holder_case", [(tier, seed)]):
         rep.merge(part)
     for part in pmap("checks.c19", "fork_case", [(tier, seed)]):
         rep.merge(part)
